@@ -218,8 +218,9 @@ def relpath_impl(ctx):
 def hash_eq(ctx):
     R = 'HASH-EQ'
     ctx.rule(R, 'for every class defining both __eq__ and __hash__, the '
-             'attributes read by __hash__ are a subset of those compared by '
-             '__eq__ (equal objects hash equal)')
+             'attributes read by __hash__ (also through the methods it calls '
+             'on self) are a subset of those compared by __eq__ (equal '
+             'objects hash equal)')
     repo = ctx.repo
     n = 0
     only_eq = []
